@@ -303,6 +303,14 @@ class C02(fw.Prop):
                 yield mk(dict(k="rlrq", reason=reason, ui=ui))
             for ui in (None, ires(), gires(31), gires(150)):
                 yield mk(dict(k="rlre", reason=reason, ui=ui))
+        # ciphered user-information of every length class in every APDU kind: content lengths across 127/128, 255/256/257, 300,
+        # 1000, 65535/65536 (long-form lengths of 1, 2 and 3 bytes)
+        for n in [100, 118, 119, 120, 121, 122, 230, 236, 237, 238, 239, 240, 241, 245, 250, 256, 300, 1000] + ([65400, 65535, 65600] if deep else [65600]):
+            yield mk(dict(k="rlrq", reason=rng.choice([None, 0, 1, 30]), ui=gireq(n)))
+            yield mk(dict(k="rlre", reason=rng.choice([None, 0, 1, 30]), ui=gires(n)))
+            yield mk(dict(k="aarq", ciph=1, title=rb(8), cert=None, mech=rng.choice([None, 5]), val=None, ui=gireq(n)))
+            yield mk(dict(k="aarq", ciph=1, title=rb(8), cert=None, mech=5, val=rb(16), ui=gireq(n)))
+            yield mk(dict(k="aare", ciph=1, res=0, du=1, diag=0, title=rb(8), cert=None, mech=rng.choice([None, 5]), val=None, ui=gires(n)))
         for _ in range(4000 if deep else 300):
             m = rng.choice(mechs)
             kind = rng.choice(["aarq", "aare", "rlrq", "rlre"])
